@@ -259,6 +259,24 @@ CHECKS['C02'] = dict(
          'str.join uninterpreted; record constructors assumed not to raise for the decoder\'s argument types; RecursionError is '
          'excluded through the hop bound (depth <= hops + 1), not modelled as a raise; the work bound ("fixed budget") is not '
          'proved: loop termination variants were not added')
+CHECKS['C01'] = dict(
+    category='other',
+    text='The statement (what is encoded is what any decoder recovers, across compression and packet splitting) is a whole-message '
+         'property and is NOT proved: it is checked by a BOUNDED stand-in - every ordered selection of up to 2 (3 thorough) entries out '
+         'of 18 (questions and all seven record kinds over names that share suffixes in mixed case, with spaces, non-ASCII and 63-byte '
+         'labels, TTL 0 and 2^32-1) as multicast response and unicast query, a 200-record multi-packet message and the 63/64/65-byte '
+         'label boundary, through the real DNSOutgoing.packets() into the real DNSIncoming AND an independent strict RFC 1035 '
+         'parser. Proved deductively for all inputs (the per-function kernel the round trip rests on): a label is written only if it is at '
+         'most 63 UTF-8 bytes and is preceded by exactly its length byte (refuted on the tree before the F2 repair); character-strings at '
+         'most 255 bytes preceded by their length; the two compression-pointer bytes are 0xC0 | index>>8 and index & 0xFF for index < '
+         '16384, and the decoder\'s expression (b0 & 0x3F) * 256 + b1 returns the index (lemma); shorts and the TTL are big-endian '
+         '(lemmas); the class word carries the cache-flush bit iff unique and multicast. Size bookkeeping, name-table rollback and '
+         'section accounting are the C14 obligations.',
+    design_ref='DESIGN.md section 4 C01 and 9',
+    technique='contract-based deductive verification of the encoder primitives (pyvc + z3/cvc5); the round-trip statement itself by a '
+              'bounded small-scope stand-in (real encoder -> real decoder and an independent strict parser)',
+    note='K3/K5 (offset arithmetic and name-table soundness of write_name against a ghost wire layout) and K9 (per-type rdata '
+         'inverse pairs) of the design were not built; struct packers as fixed-width big-endian encoders; utf-8 length as ulen')
 NOT_APPLICABLE = {
     'C07': 'end-to-end liveness over several hosts and lossy delivery: no per-function contract can express it '
            '(DESIGN.md section 6)',
